@@ -166,6 +166,24 @@ def run_case(case, ctx):
         if len(limits) != 6:
             ctx.fail(f"{sig}/number_of_limits", n=len(limits))
             return
+        # the two scan functions called directly, optional arguments left at their defaults: a 2-tuple with the
+        # same limits as upper_limit gave (a third of the cases; deterministic, so equality is exact to rounding)
+        if case["grid"][2] % 3 == 0 and not case["alias"]:
+            try:
+                if scan is not None:
+                    direct = UL.linear_grid_scan(data, model, scan, level, **kw)
+                else:
+                    # upper_limit brackets the root with the model's suggested POI range
+                    lo_d, hi_d = model.config.suggested_bounds()[model.config.poi_index]
+                    direct = UL.toms748_scan(data, model, lo_d, hi_d, level, **kw)
+                if not (isinstance(direct, tuple) and len(direct) == 2):
+                    ctx.fail(f"{sig}/direct_scan_call_layout", n=len(direct) if isinstance(direct, tuple) else -1)
+                else:
+                    dl = [float(direct[0])] + [float(v) for v in direct[1]]
+                    if any(abs(a - b) > 1e-9 * (1 + abs(b)) for a, b in zip(dl, limits)):
+                        ctx.fail(f"{sig}/direct_scan_call_differs_from_upper_limit", direct=dl, upper_limit=limits)
+            except pyhf.exceptions.FailedMinimization:
+                pass
         names = ["observed", "exp-2", "exp-1", "exp0", "exp+1", "exp+2"]
         if any(limits[i] > limits[i + 1] * (1 + 1e-6) for i in range(1, 5)):
             ctx.fail(f"{sig}/expected_limits_not_ordered", limits=limits)
